@@ -253,7 +253,7 @@ def cases(rng, tier):
     L = 2 if tier == "quick" else 3
     names = ["".join(p) for k in range(0, L + 1) for p in itertools.product(ALPHA, repeat=k)]
     if tier != "quick":
-        names = rng.sample(names, 6000)
+        names = rng.sample(names, min(len(names), 6000))
     for i, n in enumerate(names):
         b = BOUNDARIES[i % len(BOUNDARIES)]
         as_fn = (i % 3 == 0)
